@@ -39,7 +39,7 @@ def cases_for(ctx):
     for _ in range(30 if quick else 600):
         k += 1
         cases.append(("h%d" % k, R.case_c19(r.fork(), steps=r.range(8, 18))))
-    for _ in range(12 if quick else 200):
+    for _ in range(20 if quick else 300):
         k += 1
         cases.append(("m%d" % k, R.case_mempool(r.fork())))
     return cases
